@@ -60,6 +60,11 @@ def asserts(sc):
                     A.imp(b_and(f.present, live), b_and(b_not(f.attempt_id.n), att_exists))))
         out.append((f'job {f.j}: Pending/Ready => no current attempt',
                     A.imp(b_and(f.present, b_or(f.in_state('Pending'), f.in_state('Ready'))), f.attempt_id.n)))
+        # a committed Pending job must be waiting for something that can still happen
+        jsd = {x.j: x for x in js}
+        waiting = b_or(*[b_and(p, jsd[pid].present, b_not(jsd[pid].terminal())) for pid, p in A.parents_of(db, f.j)])
+        out.append((f'job {f.j}: committed Pending => some parent is not terminal yet (else it is stuck forever)',
+                    A.imp(b_and(f.present, f.committed, f.in_state('Pending')), waiting)))
         ready = b_and(f.present, f.committed, f.in_state('Ready'))
         grp_running = b_or(*[b_and(i_eq(f.group, g), i_eq(db.t['job_groups'].rows[(1, g)].vals['state'].v, S.code('running')))
                              for g in oracle.groups(db)])
